@@ -52,6 +52,41 @@ mod verif_search {
                     panic!("VERIF-SEARCH-HIT C18/retrieve/a_seed_is_returned_only_to_a_caller_presenting_the_current_password history=[initialize(pw0); store(seed0, pw0) -> Ok; initialize(pw1) -> Ok; retrieve(seed0, pw0) -> Ok]");
                 }
             }
+            // directed family: (password, seed id) pairs whose concatenations collide -- the boundary between the two
+            // moved -- and near-miss passwords (prefix, extension, case): none of them may open a cached seed
+            {
+                let dir = tempfile::TempDir::new().expect("tempdir");
+                let path = dir.path().join("store.enc");
+                let m = EncryptedKeyStorageManager::new(&path, SecurityLevel::Fast).expect("manager");
+                let p0 = "G00d-Pa55w0rd_#1";
+                m.initialize(&SecureString::from_plain_str(p0).expect("pw")).await.expect("initialize");
+                for id in ["node-backup", "ab", "seed:0", "x"] {
+                    let s = MasterSeed::generate().expect("seed");
+                    m.store_master_seed(id, &s, &SecureString::from_plain_str(p0).expect("pw")).await.expect("store");
+                }
+                for id in ["node-backup", "ab", "seed:0", "x"] {
+                    let mut tries: Vec<(String, String)> = Vec::new();
+                    for n in 1..id.len() {
+                        if id.is_char_boundary(n) {
+                            tries.push((format!("{}{}", p0, &id[..n]), id[n..].to_string()));          // boundary moved right
+                        }
+                    }
+                    for n in 1..4usize {
+                        tries.push((p0[..p0.len() - n].to_string(), format!("{}{}", &p0[p0.len() - n..], id)));   // boundary moved left
+                    }
+                    tries.push((format!("{}:", p0), id.to_string()));
+                    tries.push((format!("{} ", p0), id.to_string()));
+                    tries.push((p0.to_lowercase(), id.to_string()));
+                    tries.push((p0[..p0.len() - 1].to_string(), id.to_string()));
+                    tries.push((String::new(), format!("{}{}", p0, id)));
+                    for (wrong_pw, some_id) in tries {
+                        let Ok(wp) = SecureString::from_plain_str(&wrong_pw) else { continue };
+                        if m.retrieve_master_seed(&some_id, &wp).await.is_ok() {
+                            panic!("VERIF-SEARCH-HIT C18/retrieve/a_seed_is_returned_only_to_a_caller_presenting_the_current_password history=[initialize({:?}); store({:?}, {:?}) -> Ok; retrieve({:?}, {:?}) -> Ok]", p0, id, p0, some_id, wrong_pw);
+                        }
+                    }
+                }
+            }
             for round in 0..rounds {
                 let dir = tempfile::TempDir::new().expect("tempdir");
                 let path = dir.path().join("store.enc");
